@@ -280,6 +280,22 @@ func monitor(c0 *simCase, evs []event, retT int64) string {
 			ret = e
 		}
 	}
+	// once the outcome is decided nothing paces the remaining targets any more: they are flushed (and
+	// fail at once under the cancelled context) at that very instant, so that every goroutine of Dial
+	// is gone as soon as the outstanding attempts have returned
+	decided := int64(-1)
+	if ret != nil {
+		decided = ret.T
+	}
+	if cancelT >= 0 && (decided < 0 || cancelT < decided) {
+		decided = cancelT
+	}
+	for i := range evs {
+		e := &evs[i]
+		if e.Kind == "start" && e.Late && decided >= 0 && e.T > decided {
+			return fmt.Sprintf("attempt %d began %dms after the outcome was decided (at %dms): targets are still being paced although nobody waits for them - Dial's goroutines outlive the call", e.K, e.T-decided, decided)
+		}
+	}
 	if maxIn > c.Workers {
 		return fmt.Sprintf("%d attempts in flight, MaxConcurrency is %d", maxIn, c.Workers)
 	}
